@@ -579,6 +579,7 @@ type FrameState struct {
 	loopMeas  map[*ssa.BasicBlock][]string // measure at loop head
 	inLoop    map[*ssa.BasicBlock]bool
 	loopEvents map[*ssa.BasicBlock]int
+	loopIter  map[*ssa.BasicBlock]string
 	recvLabel string
 }
 
@@ -661,6 +662,12 @@ func (p *Path) clone(newID int) *Path {
 			g.loopMeas[k] = v
 		}
 		g.inLoop = make(map[*ssa.BasicBlock]bool, len(f.inLoop))
+		if f.loopIter != nil {
+			g.loopIter = make(map[*ssa.BasicBlock]string, len(f.loopIter))
+			for k, v := range f.loopIter {
+				g.loopIter[k] = v
+			}
+		}
 		if f.loopEvents != nil {
 			g.loopEvents = make(map[*ssa.BasicBlock]int, len(f.loopEvents))
 			for k, v := range f.loopEvents {
